@@ -95,6 +95,8 @@ class Evaluator:
         if isinstance(node, ast.Name):
             if node.id in env:
                 return env[node.id]
+            if node.id in env.get("$locals", ()):
+                raise PyRaise("UnboundLocalError", "cannot access local variable '%s' where it is not associated with a value" % node.id)
             if node.id in self.g:
                 return self.g[node.id]
             if node.id in ("True", "False", "None"):
@@ -297,6 +299,8 @@ class Evaluator:
             name = fn.id
             if name in env and callable(env[name]):
                 return env[name](*args, **kw)
+            if name in env and env[name] is None:
+                raise PyRaise("TypeError", "'NoneType' object is not callable")
             if name in self.g and callable(self.g[name]):
                 return self.g[name](*args, **kw)
             if name == "len":
@@ -437,6 +441,7 @@ class Evaluator:
     def run_body(self, funcdef, env):
         """the body of a def: a generator function is run to its end and hands back the values it yielded (eagerly: values are not
         produced on demand, which only matters for code that interleaves side effects with consumption)"""
+        env["$locals"] = local_names(funcdef)
         if is_generator(funcdef):
             env["$yield"] = []
             try:
@@ -747,3 +752,41 @@ def _is_generator(funcdef):
             continue
         stack.extend(ast.iter_child_nodes(n))
     return False
+
+
+_LOCALS_CACHE = {}
+
+
+def local_names(funcdef):
+    """the names Python treats as locals of this def: assigned (or deleted, imported, bound by for/with/except) in its own body, not
+    declared global/nonlocal; names bound only inside comprehensions or nested defs are not"""
+    k = id(funcdef)
+    hit = _LOCALS_CACHE.get(k)
+    if hit is not None and hit[0] is funcdef:
+        return hit[1]
+    out, declared = set(), set()
+    if isinstance(funcdef, ast.Lambda):
+        _LOCALS_CACHE[k] = (funcdef, frozenset())
+        return frozenset()
+    stack = list(funcdef.body)
+    while stack:
+        n = stack.pop()
+        if isinstance(n, (ast.FunctionDef, ast.AsyncFunctionDef, ast.ClassDef)):
+            out.add(n.name)
+            continue
+        if isinstance(n, (ast.Lambda, ast.ListComp, ast.SetComp, ast.DictComp, ast.GeneratorExp)):
+            continue
+        if isinstance(n, (ast.Global, ast.Nonlocal)):
+            declared.update(n.names)
+        if isinstance(n, ast.Name) and isinstance(n.ctx, (ast.Store, ast.Del)):
+            out.add(n.id)
+        if isinstance(n, ast.ExceptHandler) and n.name:
+            out.add(n.name)
+        if isinstance(n, (ast.Import, ast.ImportFrom)):
+            for al in n.names:
+                out.add((al.asname or al.name).split(".")[0])
+        stack.extend(ast.iter_child_nodes(n))
+    params = {a.arg for a in funcdef.args.posonlyargs + funcdef.args.args + funcdef.args.kwonlyargs}
+    res = frozenset(out - declared - params)
+    _LOCALS_CACHE[k] = (funcdef, res)
+    return res
